@@ -254,6 +254,9 @@ def all_cases(ctx):
             add('list', seed=name, edit=label, line=join(t2, sepedit), cut=None, eol='\r\n')
     # ---- list-split: seed and hostile lines, two segments cut at every byte position
     split_lines = [(n, join(t, None).encode('latin1')) for n, t in SEEDS] + HOSTILE
+    if not T:
+        keep = ('unix-year', 'unix-symlink', 'dos-file', 'eplf', 'total', 'long-1030', 'long-4100', 'nul-inside', 'markup', 'dotdot')
+        split_lines = [x for x in split_lines if x[0] in keep]
     for name, raw in split_lines:
         for eol in (b'\r\n', b'\n') if T else (b'\r\n',):
             full = MARK_A + eol + raw + eol + MARK_B + eol
@@ -449,7 +452,9 @@ def run(ctx):
     tot = {'evaluations': 0, 'outcomes': {}, 'violations': [], 'samples': [], 'deadline_hit': False, 'crashes': [], 'kicks': 0, 'replays': 0}
     for sanity in (1, 0):
         part = [c for c in cases if c.get('sanity', 1) == sanity]
-        r = ls.run_cases(ctx, part, run_case, make_world_for(sanity), key_of=key_of, determinism_n=6, nshards=None if sanity else 4)
+        # instance starts dominate on a loaded machine: the quick tier uses fewer, longer shards
+        nsh = (8 if sanity else 2) if ctx.quick else (None if sanity else 4)
+        r = ls.run_cases(ctx, part, run_case, make_world_for(sanity), key_of=key_of, determinism_n=6, nshards=nsh)
         for k in ('evaluations', 'kicks', 'replays'):
             tot[k] += r[k]
         for k, v in r['outcomes'].items():
@@ -461,7 +466,7 @@ def run(ctx):
     oc = tot['outcomes']
     if not tot['violations'] and not tot['deadline_hit']:
         for need, nmin in (('pasv:valid:connected', 2), ('pasv:invalid:no-connect', 50), ('epsv:valid:connected', 2), ('epsv:invalid:no-connect', 10),
-                           ('list:status-200:markers-ok', 500), ('list-split:status-200:markers-ok', 500)):
+                           ('list:status-200:markers-ok', 500), ('list-split:status-200:markers-ok', 400)):
             if oc.get(need, 0) < nmin:
                 raise HarnessError('vacuity guard: outcome %s seen %d times (< %d): %r' % (need, oc.get(need, 0), nmin, oc))
     seen = {}
